@@ -721,7 +721,10 @@ func (s *Server) handleConnectionLoop(conn net.Conn, procHandler *NFSProcedureHa
 
 	var connRateLimiter *RateLimiter
 	if s.handler != nil {
+		// rateLimiter is replaced by UpdatePolicyOptions under policyRWMu
+		s.handler.policyRWMu.RLock()
 		connRateLimiter = s.handler.rateLimiter
+		s.handler.policyRWMu.RUnlock()
 	}
 	defer func() {
 		if connRateLimiter != nil {
